@@ -1,6 +1,6 @@
 SPECIFICATION Spec
 CONSTANTS
-  MaxOps = 3
+  MaxOps = 4
   UnitKinds = {"getp"}
   MaxPos = 2
   Sigs = {1, 2}
